@@ -31,6 +31,10 @@ CLAIMS = {
     "C05": ("Rule.test verdict, tested flag, failure count and the ordered failure list (node identity, truthful concrete path, >= 1 "
             "reason) equal the reference rule semantics for every value of the symbolic leaves, thresholds and primitive parts, per "
             "(path skeleton x value-kind condition tree x document skeleton)", "3 C05"),
+    "C06": ("for each rule multiset (0-3 rules quick, 4 thorough) EVERY permutation of the rule list is built and validated inside one "
+            "symbolic run: validity = conjunction, failure count = sum, tested count, rule order (stable, shortest first), the set of "
+            "(rule, failing path) and the report text (a str naming every failing path) equal the reference for every value of the "
+            "symbolic leaves/thresholds", "3 C06"),
     "C14": ("equality laws (reflexive/symmetric/transitive, rebuilt and commuted copies equal) and 'equal implies same "
             "behaviour' decided for every value of the differing atom (key, index, argument, label) and of the probe "
             "document's leaves, per term kind", "3 C14"),
